@@ -593,3 +593,63 @@ func TestC20KnownF16(t *testing.T) {
 		rec.Label("known-finding-F16-not-reproduced")
 	}
 }
+
+// TestC20InFlight: "automatic refresh active iff enabled" at the moment it is
+// switched off. Events are made to be in flight (the watcher goroutine is kept
+// busy by a large first directory) when Configure(WithAutoRefresh(false)) is
+// called; a Spec put into the second directory right after Configure returned
+// must not show up until Refresh() is called (F22: the event already taken
+// off the channel was still handled, with a full rescan, after the watcher
+// had been stopped).
+func TestC20InFlight(t *testing.T) {
+	rec := stats.For("C20", "inflight")
+	sc := newScratch(t)
+	rapid.Check(t, func(t *rapid.T) {
+		root := sc.dir()
+		defer os.RemoveAll(root)
+		big, small := filepath.Join(root, "big"), filepath.Join(root, "small")
+		_ = os.MkdirAll(big, 0o755)
+		_ = os.MkdirAll(small, 0o755)
+		nFiles := rapid.IntRange(50, 250).Draw(t, "filesInFirstDirectory")
+		for i := 0; i < nFiles; i++ {
+			_ = os.WriteFile(filepath.Join(big, fmt.Sprintf("f%04d.json", i)), []byte(fmt.Sprintf(`{"cdiVersion":"0.3.0","kind":"v1.com/gpu","devices":[{"name":"d%04d","containerEdits":{"env":["M=0"]}}]}`, i)), 0o644)
+		}
+		waitForInotify()
+		cache, _ := cdi.NewCache(cdi.WithSpecDirs(big, small), cdi.WithAutoRefresh(true))
+		defer func() { _ = cache.Configure(cdi.WithAutoRefresh(false)) }()
+		undecidedIfNoInotify(t, cache)
+		rounds := rapid.IntRange(1, 3).Draw(t, "rounds")
+		for r := 0; r < rounds; r++ {
+			burst := rapid.IntRange(1, 4).Draw(t, fmt.Sprintf("burst%d", r))
+			for b := 0; b < burst; b++ {
+				// one event in the first directory
+				tmp := filepath.Join(big, ".tmp")
+				_ = os.WriteFile(tmp, []byte(fmt.Sprintf(`{"cdiVersion":"0.3.0","kind":"v1.com/gpu","devices":[{"name":"d0000","containerEdits":{"env":["M=%d"]}}]}`, r*10+b+1)), 0o644)
+				_ = os.Rename(tmp, filepath.Join(big, "f0000.json"))
+				time.Sleep(time.Duration(rapid.IntRange(0, 3000).Draw(t, fmt.Sprintf("gap%d_%d", r, b))) * time.Microsecond)
+			}
+			if err := cache.Configure(cdi.WithAutoRefresh(false)); err != nil {
+				t.Fatalf("VERIF-HARNESS Configure: %v", err)
+			}
+			x := filepath.Join(small, "x.json")
+			_ = os.WriteFile(x, []byte(`{"cdiVersion":"0.3.0","kind":"v2.org/late","devices":[{"name":"x","containerEdits":{"env":["X=1"]}}]}`), 0o644)
+			time.Sleep(150 * time.Millisecond)
+			if d := cache.GetDevice("v2.org/late=x"); d != nil {
+				t.Fatalf("C20 violated: auto-refresh was switched off (Configure had returned), then %s was written, and without any Refresh() the cache knows v2.org/late=x: an automatic refresh ran while auto-refresh is disabled\nfirst directory: %d files, burst of %d events before Configure", x, nFiles, burst)
+			}
+			if err := cache.Refresh(); err != nil {
+				t.Fatalf("VERIF-HARNESS Refresh: %v", err)
+			}
+			if d := cache.GetDevice("v2.org/late=x"); d == nil {
+				t.Fatalf("C20 violated: after an explicit Refresh() the manual cache does not know v2.org/late=x")
+			}
+			_ = os.Remove(x)
+			if err := cache.Configure(cdi.WithAutoRefresh(true)); err != nil {
+				t.Fatalf("VERIF-HARNESS Configure: %v", err)
+			}
+			undecidedIfNoInotify(t, cache)
+		}
+		c := map[string]any{"files": nFiles, "rounds": rounds}
+		rec.Case(true, canonJSON(c)+fmt.Sprint(rec), func() any { return c }, "auto-switched-off-with-events-in-flight")
+	})
+}
